@@ -1173,6 +1173,8 @@ class Data(BaseCartesianData):
             for cid in self._world_component_ids[:]:
                 self.remove_component(cid)
                 self._world_component_ids.remove(cid)
+            # the old pixel<->world links refer to the world components removed above
+            self._coordinate_links = []
             if self.coords:
                 for i in range(ndim):
                     comp = CoordinateComponent(self, i, world=True)
